@@ -27,6 +27,7 @@ PID = "C12"
 STRS = ["b", "a", "dd", "c", "ab"]
 MIXED = ["12", 2, "a", 1.5, "b"]
 INTS = [3, 1, 20, 10, 2]     # keys that become positional when spread
+PATS = ["b", ("pat", "a"), "c", ("pat", "d"), 1]   # patterns next to strings
 EXTRA = ["e", "a"]           # strings used by the paths themselves
 
 G = "do def r = []; def g(x) do append(r, x); x end; "
@@ -71,6 +72,20 @@ PATHS = {
     "shuffle": "do set_seed(7); shuffle(list(s)) end",
     # the seeded generator: every seed, also the ones whose internal state
     # passes through zero, gives one fixed sequence
+    # values that render alike (ties of the sort order): the enumeration
+    # must still not depend on addresses or hash seeds
+    "lambda_set": "do def r = []; def fs = <<fn() append(r, 1), "
+                  "fn() append(r, 2), fn() append(r, 3), fn() append(r, 4)>>; "
+                  "for f in fs do f() end; r end",
+    "lambda_keys": "do def r = []; def m0 = <<<>>>; "
+                   "m0[fn() 'a'] = 1; m0[fn() 'b'] = 2; m0[fn() 'c'] = 3; "
+                   "[k() for k in keys m0] end",
+    # module objects list their members in definition order
+    "mod_members": "do require Stat as Q; [m for m in Q] end",
+    "mod_render": "do require Set as Q; string(Q) end",
+    "mod_ls": "do require List as Q; ls(Q) end",
+    "mod_for": "do require Bitwise as Q; def r = []; "
+               "for m in keys Q do append(r, m); end; r end",
     "rand_seed0": "do set_seed(0); [random(1000), random(1000), random(1000)] end",
     "rand_seed22643": "do set_seed(22643); [random(1000), random(1000), random(1000)] end",
     "rand_seed1": "do set_seed(1); [random(), random(10), random(3, 9)] end",
@@ -239,6 +254,8 @@ def explore(chunk):
             base = MIXED[:n]
         if kind in ("si", "mi"):
             base = INTS[:n]
+        if kind in ("sp", "mp"):
+            base = PATS[:n]
         strs = [x for x in base if isinstance(x, str)] + EXTRA[:1]
         outcomes = {}
         first = None
@@ -352,7 +369,7 @@ def program_texts(calls, n):
     for cname, order in (("fwd", lambda x: list(x)),
                          ("rev", lambda x: list(reversed(x)))):
         for pool, tag in ((STRS[:n], ""), (MIXED[:n], "x"),
-                          (INTS[:n], "i")):
+                          (INTS[:n], "i"), (PATS[:n], "p")):
             els = order(pool)
             sset = "<< " + ", ".join(literal(e) for e in els) + " >>"
             tel = list(pool[:-1]) + ["e"]
@@ -475,6 +492,7 @@ def main(tier, seed):
     paths = [("s", k) for k in PATHS] + [("sx", k) for k in PATHS] + \
             [("m", k) for k in MAP_PATHS] + [("mx", k) for k in MAP_PATHS] + \
             [("si", k) for k in PATHS] + [("mi", k) for k in MAP_PATHS] + \
+            [("sp", k) for k in PATHS] + [("mp", k) for k in MAP_PATHS] + \
             [("call", k) for k in calls]
     agg = core.pmap(explore, [{"paths": c, "n": n, "calls": calls}
                               for c in core.chunked(paths, core.NPROC * 4)])
@@ -488,7 +506,8 @@ def main(tier, seed):
     core.finish(
         PID, tier, seed, agg, t0,
         rule=(f"{len(paths)} programs ({len(PATHS)} set paths and "
-              f"{len(MAP_PATHS)} map paths x {{strings, mixed scalars, ints}}, "
+              f"{len(MAP_PATHS)} map paths x {{strings, mixed scalars, ints, patterns "
+              f"next to strings}}, "
               f"{len(calls)} library calls discovered at run time) x every "
               f"permutation of the owned hash values of the program's "
               f"strings x every insertion order of {n} elements (thorough: 5 "
